@@ -2,3 +2,6 @@ import OlVerif.Props.C03
 #print axioms OlVerif.C03.table_sound
 #print axioms OlVerif.C03.special_never_wrapped
 #print axioms OlVerif.C03.tableViolations_empty
+#print axioms OlVerif.C03.unparse_derives
+#print axioms OlVerif.C03.unparse_derives_at
+#print axioms OlVerif.C03.wf_decidable_sound
